@@ -343,6 +343,111 @@ def _gen_readall(cls):
             f"Definition readall_post (is_max exhausted : bool) : bool := {post}.\n")
 
 
+class T4(T2):
+    """Statement-by-statement translation of LimitedStream.readinto into a Gallina term over the primitives at the end of
+    C09/Model.v (try_readinto / try_read / slice_assign / do_on_exhausted / do_on_disconnect), threading pos, u and b."""
+
+    RET = "RRet {v} pos u b"
+
+    def test(self, n):
+        txt = ast.unparse(n)
+        if txt == "hasattr(self._stream, 'readinto')":
+            return "(u_has_readinto u)"
+        if isinstance(n, ast.Name) and n.id == "out_size":
+            return "(truthy out_size)"
+        if isinstance(n, ast.UnaryOp) and isinstance(n.op, ast.Not):
+            return f"(negb {self.test(n.operand)})"
+        t, c = self.expr(n)
+        if t != "bool":
+            raise self.bad(f"test {txt!r}")
+        return c
+
+    def bexpr(self, n):
+        """bytes-valued expression"""
+        txt = ast.unparse(n)
+        if txt in ("b", "temp_b", "data"):
+            return txt
+        if txt == "temp_b[:out_size]":
+            return "(take temp_b out_size)"
+        raise self.bad(f"bytes expression {txt!r}")
+
+    def handler(self, h):
+        if not (isinstance(h.type, ast.Tuple) and [ast.unparse(e) for e in h.type.elts] == ["OSError", "ValueError"] and h.name == "e"):
+            raise self.bad("except clause changed")
+        return "(fun u => " + self.stmts(h.body, None) + ")"
+
+    def stmts(self, ss, k):
+        if not ss:
+            if k is None:
+                raise self.bad("control falls off the end")
+            return k()
+        s, rest = ss[0], ss[1:]
+
+        def cont():
+            return self.stmts(rest, k)
+        u = ast.unparse(s)
+        if isinstance(s, ast.Return):
+            t, c = self.expr(s.value)
+            if t != "int":
+                raise self.bad(f"return of {u!r}")
+            return "(" + self.RET.format(v=c) + ")"
+        if u == "self.on_exhausted()":
+            return f"(do_on_exhausted is_max pos u b (fun _ => {cont()}))"
+        if u == "self.on_disconnect(error=e)":
+            return f"(do_on_disconnect is_max true pos u b (fun _ => {cont()}))"
+        if u == "self.on_disconnect()":
+            return f"(do_on_disconnect is_max false pos u b (fun _ => {cont()}))"
+        if u == "self._pos += out_size":
+            return f"(let pos := (pos + out_size)%Z in {cont()})"
+        if isinstance(s, ast.Assign) and len(s.targets) == 1 and isinstance(s.targets[0], ast.Name):
+            name, val = s.targets[0].id, ast.unparse(s.value)
+            if val == "bytearray(remaining)":
+                return f"(let {name} := bytearray remaining in\n   {cont()})"
+            if val == "len(data)":
+                return f"(let {name} := len_of data in\n   {cont()})"
+            if val == "len(b)":
+                return f"(let {name} := len_of b in\n   {cont()})"
+            t, c = self.expr(s.value)
+            if t != "int":
+                raise self.bad(f"assignment {u!r}")
+            return f"(let {name} := {c} in\n   {cont()})"
+        if isinstance(s, ast.Assign) and ast.unparse(s.targets[0]) == "b[:out_size]":
+            return f"(slice_assign kind b out_size {self.bexpr(s.value)} pos u (fun b =>\n   {cont()}))"
+        if isinstance(s, ast.If):
+            a = self.stmts(s.body, cont)
+            b = self.stmts(s.orelse, cont)
+            return f"(if {self.test(s.test)}\n   then {a}\n   else {b})"
+        if isinstance(s, ast.Try) and len(s.body) == 1 and len(s.handlers) == 1 and not s.orelse and not s.finalbody:
+            st = s.body[0]
+            tgt = st.target if isinstance(st, ast.AnnAssign) else (st.targets[0] if isinstance(st, ast.Assign) else None)
+            val = ast.unparse(st.value) if tgt is not None else ""
+            h = self.handler(s.handlers[0])
+            m = re.fullmatch(r"self\._stream\.readinto\((b|temp_b)\)", val)
+            if m and ast.unparse(tgt) == "out_size":
+                buf = m.group(1)
+                return f"(try_readinto u {buf} (fun out_size u {buf} =>\n   {cont()})\n   {h})"
+            if val.startswith("self._stream.read(") and ast.unparse(tgt) == "data" and len(st.value.args) == 1:
+                t, c = self.expr(st.value.args[0])
+                if t != "int":
+                    raise self.bad(f"read size {val!r}")
+                return f"(try_read u {c} (fun data u =>\n   {cont()})\n   {h})"
+        raise self.bad(f"statement {u[:80]!r}")
+
+
+def _gen_readinto_full(cls) -> str:
+    # on a fresh parse: the skeleton comparison replaced the hole nodes of the first tree in place
+    cls = px.find_class(px.load("wsgi.py"), "LimitedStream")
+    fn = find_method(cls, "readinto")
+    tr = T4("LimitedStream.readinto (statement translation)",
+            {"self.limit": ("int", "limit"), "self._pos": ("int", "pos"), "size": ("int", "size"),
+             "remaining": ("int", "remaining"), "out_size": ("int", "out_size")})
+    body = tr.stmts(strip_doc(fn.body), None)
+    return ("(* GENERATED by tools/c09.py from wsgi.py (LimitedStream.readinto, statement by statement) on every run - do not edit *)\n"
+            "From Wz Require Import C09.Base C09.Gen C09.Model.\nOpen Scope N_scope.\n\n"
+            "Definition readinto_gen (is_max : bool) (limit pos : Z) (kind : bufkind) (u : und) (b : bytes) : rr :=\n  "
+            f"{body}.\n")
+
+
 def gen() -> None:
     """T1/T2: regenerate coq/C09/Gen.v from wsgi.py, sansio/utils.py, _internal.py."""
     wsgi = px.load("wsgi.py")
@@ -455,7 +560,9 @@ def gen() -> None:
     text += f"Definition is_exhausted_gen (pos limit : Z) : bool :=\n  {tr.function(find_method(cls, 'is_exhausted'))}.\n\n"
     text += _gen_readinto(cls)
     text += _gen_readall(cls)
+    full = _gen_readinto_full(cls)
     px.write_if_changed(os.path.join(COQ, "C09", "Gen.v"), text)
+    px.write_if_changed(os.path.join(COQ, "C09", "GenRI.v"), full)
 
 
 # ====================================================================== harness
@@ -1221,7 +1328,7 @@ def main(chk: Check) -> None:
     else:
         chk.cov["obligations"] += 1
     chk.trusted += [
-        "translator tools/c09.py (T2 atom tables for get_input_stream, get_content_length, _plain_int, on_exhausted, on_disconnect, "
+        "translator tools/c09.py (statement-by-statement translation of LimitedStream.readinto into C09/GenRI.v, tied to the model by theorem; T2 atom tables for get_input_stream, get_content_length, _plain_int, on_exhausted, on_disconnect, "
         "is_exhausted; statement skeletons of LimitedStream.readinto / readall / exhaust with the comparisons, sizes and the slice "
         "source generated at the holes)",
         "extraction ExtrOcamlBasic + tools/conv.ml + coq/C09/driver.ml, OCaml 4.13.1",
